@@ -6,7 +6,7 @@ from typing import Any
 
 from vmc.checks.common import replay_program, run_programs
 from vmc.engine import ev_repr
-from vmc.progs import ENGINE_ASSUMPTIONS, Oracle, catalog, to_programs
+from vmc.progs import ENGINE_ASSUMPTIONS, Oracle, catalog, continue_specs, to_programs
 
 PID = "C11"
 
@@ -90,14 +90,15 @@ def observe(h: Any, e: Any, state: dict[str, Any]) -> Any:
 
 ORACLE = Oracle(on_quiescent=on_quiescent, observe=observe)
 
-RULE = ("all schedules of the shared engine program catalog incl. resumed runs; at every quiescent point of every "
+RULE = ("all schedules of the shared engine program catalog incl. resumed runs and runs continued from the context of a "
+        "run that ended with work left over (running / queued invocations, partial collections, a registered waiter); at every quiescent point of every "
         "execution canon(live runner state) is compared with canon(rebuild_state_from_ticks(init_state, recorded "
         "ticks)) (timestamps masked) and with ctx.to_dict(); non-trivial = at least one deviation from the default "
         "schedule")
 
 
 def programs(tier: str) -> list[Any]:
-    return to_programs(catalog(tier), ORACLE)
+    return to_programs(catalog(tier) + continue_specs(tier), ORACLE)
 
 
 def run(tier: str, seed: int) -> Any:
